@@ -1,7 +1,7 @@
-\* (quick tier: one hasher thread is enough for these counterexamples)
-\* The strict reading of "any other bytes are rejected": expected to be VIOLATED by the model of the
-\* current code (UnmarshalFn returns nil without checking once the Block is populated).  The check
-\* replays the counterexample on the real code; only a reproduced behaviour counts.
+\* DoneMeansFilled is expected to be VIOLATED by the model of the current code: the hasher may hold the registry
+\* entry of a Fetch that has already returned (stale entry), fill that dead Block, and the block is then handed to a
+\* later Fetch of the same CID, which returns nil with an empty container.  The check replays the counterexample on
+\* the real code; only a reproduced behaviour counts (known finding).
 SPECIFICATION Spec
 CONSTANTS
   IDs = {"a"}
@@ -13,6 +13,8 @@ CONSTANTS
   Threads = {"t1"}
   MaxMsgs = 2
   Bodies <- BodiesTiny
+  PopulatedShortcut = FALSE
+  KeyAlias <- NoWide
   RecordHist = FALSE
 INVARIANTS
   DoneMeansFilled
